@@ -29,6 +29,10 @@ def scripts(env):
         s = G.c18_random(env.rng, cfg)
         s["second_context"] = True
         out.append(s)
+    for _ in range(env.scale(60, 900)):
+        s = G.c18_twice(env.rng, cfg)
+        s["second_context"] = True
+        out.append(s)
     out += [G.c18_handler(env.rng) for _ in range(env.scale(40, 600))]
     out += [G.c18_obs_cancelled(env.rng) for _ in range(env.scale(40, 600))]
     out += [G.c18_obs_consumer(env.rng) for _ in range(env.scale(40, 600))]
